@@ -180,6 +180,10 @@ func (e *Engine) globalPrelude(axioms []string) string {
 	}
 	for _, n := range e.ufunOrd {
 		fmt.Fprintf(&sb, "(declare-fun %s %s)\n", n, e.ufuns[n])
+		if strings.HasPrefix(n, "fn_") && e.ufuns[n] == "() Int" {
+			// the value of a declared function is never nil
+			fmt.Fprintf(&sb, "(assert (not (= %s 0)))\n", n)
+		}
 	}
 	for _, r := range e.cs.Spec.RawSMT {
 		sb.WriteString(r + "\n")
